@@ -106,6 +106,25 @@ public:
 			++queue->queueNotifyCounter;
 		}
 
+		// A copy is one more object that disables the notification while it lives. Without
+		// these the implicit copy would not count itself but its destructor would count
+		// down, leaving the counter negative and the notification disabled for good.
+		DisableQueueNotify(const DisableQueueNotify & other)
+			: queue(other.queue)
+		{
+			++queue->queueNotifyCounter;
+		}
+
+		DisableQueueNotify & operator = (const DisableQueueNotify & other)
+		{
+			if(this != &other) {
+				// `copied` counts for other's queue; after the swap it releases this object's old queue.
+				DisableQueueNotify copied(other);
+				std::swap(queue, copied.queue);
+			}
+			return *this;
+		}
+
 		~DisableQueueNotify()
 		{
 			bool shouldNotify;
